@@ -256,13 +256,22 @@ def nested_functionals(ctx):
             return xitorch.integrate.solve_ivp(m.rhs, torch.linspace(0, 0.5, 3, dtype=DT), torch.ones(1, dtype=DT), method="rk4")[-1]
         if outer == "solve_ivp45":
             return xitorch.integrate.solve_ivp(m.rhs, torch.linspace(0, 0.5, 3, dtype=DT), torch.ones(1, dtype=DT), method="rk45", rtol=1e-9, atol=1e-11)[-1]
+        if outer == "equilibrium":
+            f = xitorch.make_sibling(m.integrand)(lambda y: 0.5 * m.integrand(y) + 0.1)
+            return xitorch.optimize.equilibrium(f, torch.zeros(1, dtype=DT), f_tol=1e-13, x_tol=1e-13)
+        if outer == "minimize":
+            f = xitorch.make_sibling(m.integrand)(lambda y: (0.5 * (y - 0.3) ** 2 + 0.25 * m.integrand(y * y + 0.5)).sum())
+            return xitorch.optimize.minimize(f, torch.zeros(1, dtype=DT), f_tol=1e-13, x_tol=1e-13)
+        if outer == "mcquad":
+            return xitorch.integrate.mcquad(m.integrand, lambda x: (-0.5 * x ** 2).sum(), torch.full((1,), 0.2, dtype=DT), method="mhcustom", nsamples=3, nburnout=1,
+                                            custom_step=lambda x, *p: x * 0.5 + 0.3)
         f = xitorch.make_sibling(m.integrand)(lambda y: y - 0.5 * m.integrand(y) - 0.1)
         return xitorch.optimize.rootfinder(f, torch.zeros(1, dtype=DT), f_tol=1e-13, x_tol=1e-13)
     n = 0
     with warnings.catch_warnings():
         warnings.simplefilter("ignore")
         for cls, kname in ((NestE, "edit"), (NestN, "nn")):
-            for outer in ("quad", "solve_ivp", "solve_ivp45", "rootfinder"):
+            for outer in ("quad", "solve_ivp", "solve_ivp45", "rootfinder", "equilibrium", "minimize", "mcquad"):
                 for cg in (False, True):
                     n += 1
                     ctx.case(key=("nested", kname, outer, cg))
